@@ -436,3 +436,101 @@ func c20OutputFiles(c *Ctx) {
 	}
 	c.R.Extra["output_files_opened_with_flags"] = n
 }
+
+// c19Canonical: C19-R7.  The pattern the expectation tool hands to the matcher has been through a JSON decode on
+// every path (from JSON text, or from the structured form marshalled and decoded again): the subprocess's messages
+// are JSON-decoded values, and the matcher does not find a YAML pattern's int among their float64s.
+func c19Canonical(c *Ctx, F *ssa.Function, matchCall *ssa.Call) {
+	pat := matchCall.Common().Args[0]
+	cell := cellOf(pat)
+	if cell == nil {
+		c.R.Violate("C19-R7", "Run: the pattern handed to the matcher was decoded from JSON", c.pos(matchCall), "the pattern operand is not a variable that a JSON decode has filled")
+		return
+	}
+	dec := map[*ssa.BasicBlock]bool{}
+	ssau.Instrs(F, func(in ssa.Instruction) {
+		cl, ok := in.(*ssa.Call)
+		if !ok || ssau.CalleeName(cl) != "encoding/json.Unmarshal" || len(cl.Common().Args) < 2 {
+			return
+		}
+		dst := cl.Common().Args[1]
+		if mi, isMI := dst.(*ssa.MakeInterface); isMI {
+			dst = mi.X
+		}
+		if dst == cell {
+			dec[cl.Block()] = true
+		}
+	})
+	// from where the variable gets the Output's pattern, the matcher is not reachable without a decode
+	ok := len(dec) > 0
+	for _, st := range storedIntoInstrs(cell) {
+		if dec[st.Block()] || st.Block() == matchCall.Block() && !dec[st.Block()] {
+			continue
+		}
+		if flow.Reachable(st.Block(), matchCall.Block(), dec) {
+			ok = false
+		}
+	}
+	c.R.Check(ok, "C19-R7", "Run: the pattern handed to the matcher was decoded from JSON", c.pos(matchCall), "every way from the Output's pattern to the matcher passes json.Unmarshal into the pattern variable", "a pattern given as a structure reaches the matcher as it was decoded from YAML (ints, not float64s): a number inside an array never matches what the subprocess emits, so a forbidden message goes unnoticed (and an expected one times out)")
+}
+
+// storedIntoInstrs: the stores into a variable cell.
+func storedIntoInstrs(cell ssa.Value) []*ssa.Store {
+	var out []*ssa.Store
+	for _, r := range ssau.Referrers(cell) {
+		if st, ok := r.(*ssa.Store); ok && st.Addr == cell {
+			out = append(out, st)
+		}
+	}
+	return out
+}
+
+// c14HandedOn: C14-R8.  cmd/mcrew hands one and the same map to the report (Service.Emitted, the returned walks)
+// and to the transport that delivers the message: a transport that edits the message it is given (removing "to")
+// edits the report.  No function of the package deletes from or assigns into a message map it did not make.
+func c14HandedOn(c *Ctx) {
+	n := 0
+	for _, f := range c.P.FuncsIn("cmd/mcrew") {
+		ssau.Instrs(f, func(in ssa.Instruction) {
+			var m ssa.Value
+			switch x := in.(type) {
+			case *ssa.MapUpdate:
+				m = x.Map
+			case ssa.CallInstruction:
+				if b, ok := x.Common().Value.(*ssa.Builtin); ok && b.Name() == "delete" {
+					m = x.Common().Args[0]
+				}
+			}
+			if m == nil {
+				return
+			}
+			mt, isMap := m.Type().Underlying().(*types.Map)
+			if !isMap || !types.IsInterface(mt.Elem()) {
+				return
+			}
+			if _, named := m.Type().(*types.Named); named {
+				return // Bindings and friends are judged elsewhere
+			}
+			// a message received from elsewhere: the map comes out of a type assertion on an interface value
+			received := false
+			for _, d := range deepDefs(m, []*ssa.Function{f}) {
+				if ex, isEx := d.(*ssa.Extract); isEx {
+					if _, isTA := ex.Tuple.(*ssa.TypeAssert); isTA {
+						received = true
+					}
+				}
+				if _, isTA := d.(*ssa.TypeAssert); isTA {
+					received = true
+				}
+			}
+			if !received {
+				return
+			}
+			n++
+			c.R.Violate("C14-R8", fmt.Sprintf("%s: a message received from elsewhere is edited #%d", fname(f), n), c.pos(in), "the map edited here was handed in as a message (it is also what has been reported as emitted and what the returned walk holds): the host is told of a message that was never emitted")
+		})
+	}
+	if n == 0 {
+		c.R.Discharge("C14-R8", "cmd/mcrew edits no message it is handed", "", "no delete from / assignment into a map that came out of a type assertion on a message value")
+	}
+}
